@@ -545,6 +545,14 @@ NEG_KINDS = {
     "assign_member_cell": ("S", ['neg_l: [int...] = [9]', '%(m)s.%(m)s_cell = neg_l', 'print %(m)s.%(m)s_peek()']),
     "assign_member_fn": ("S", ['%(m)s.%(m)s_peek = fn() -> int {', '  return 0', '}', 'print %(m)s.%(m)s_peek()']),
     "opassign_member": ("S", ['%(m)s.%(m)s_n += 5', 'print %(m)s.%(m)s_n']),
+    # the same writes through another name for the module, and from inside functions that capture the module / the alias
+    "assign_member_via_alias": ("S", ['neg_al = %(m)s', 'neg_al.%(m)s_n = 5', 'print %(m)s.%(m)s_n']),
+    "opassign_member_via_alias": ("S", ['neg_al = %(m)s', 'neg_al.%(m)s_n += 5', 'print %(m)s.%(m)s_n']),
+    "assign_member_in_function": ("S", ['neg_f = fn() {', '  %(m)s.%(m)s_n = 5', '}', 'neg_f()', 'print %(m)s.%(m)s_n']),
+    "assign_member_via_captured_alias": ("S", ['neg_al = %(m)s', 'neg_f = fn() {', '  neg_al.%(m)s_n = 5', '}', 'neg_f()',
+                                               'print %(m)s.%(m)s_n']),
+    "opassign_member_via_captured_alias": ("S", ['neg_al = %(m)s', 'neg_f = fn() {', '  neg_al.%(m)s_n += 5', '}', 'neg_f()',
+                                                 'print %(m)s.%(m)s_n']),
 }
 
 
@@ -552,7 +560,7 @@ def neg_expected_diagnostic(kind):
     """Text that the compiler's diagnostic must contain for the rejection to count as the intended one."""
     if "hidden" in kind:
         return ("no visible member", "this property does not exist")
-    return ("const", "cannot be modified", "read-only", "read only", "immutable")
+    return ("const", "cannot be modified", "read-only", "read only", "immutable", "member of a module")
 
 
 def negative_twins(max_n=3):
